@@ -70,5 +70,16 @@ Definition step (s : st) (r : list Z) : option st :=
          end
   else Some s.
 
+(** C14 ("completes the handshake only if the server's transport parameters echo the connection
+    IDs actually used"): with scenario key 906 the mutation concerns the connection-ID echo
+    (initial_source_connection_id, original_destination_connection_id,
+    retry_source_connection_id), so the victim CLIENT must end with TRANSPORT_PARAMETER_ERROR even
+    though the encoding decodes: the world record is read as "must be rejected". *)
+Definition strictify (strict : bool) (r : list Z) : list Z :=
+  if strict && (tag r =? 13) && (fld r 2 =? 9) && (fld r 3 =? 0) then
+    [13; rtime r; 9; fld r 3; fld r 4; fld r 5; 0]
+  else r.
+
 Definition monitor (i : ops) (o : outs) : option Z :=
-  snd (run_from step 0 {| victim := None; victim_lost := false |} o).
+  let strict := param i 906 0 =? 1 in
+  snd (run_from (fun s r => step s (strictify strict r)) 0 {| victim := None; victim_lost := false |} o).
